@@ -52,3 +52,36 @@ func JumpsToday() *time.Location {
 	now := time.Now().UTC()
 	return JumpsDaily(now.AddDate(0, 0, -3), now.AddDate(0, 0, 4))
 }
+
+// FallsBackAt builds a synthetic zone whose clock falls back by one hour (from UTC+1, 'SYD', to UTC, 'SYN') at the given
+// instant - and has been on UTC+1 for thirty days before it. With the instant laid a few minutes before or after the current
+// time, "now" lies in or next to the repeated hour.
+func FallsBackAt(at time.Time) *time.Location {
+	times := []int64{at.Unix() - 30*86400, at.Unix()}
+	idx := []byte{1, 0}
+	abbrev := []byte("SYN\x00SYD\x00")
+	b := []byte("TZif")
+	b = append(b, 0)
+	b = append(b, make([]byte, 15)...)
+	put32 := func(v uint32) { b = binary.BigEndian.AppendUint32(b, v) }
+	put32(0)
+	put32(0)
+	put32(0)
+	put32(uint32(len(times)))
+	put32(2)
+	put32(uint32(len(abbrev)))
+	for _, t := range times {
+		put32(uint32(int32(t)))
+	}
+	b = append(b, idx...)
+	put32(0)
+	b = append(b, 0, 0)
+	put32(3600)
+	b = append(b, 1, 4)
+	b = append(b, abbrev...)
+	loc, err := time.LoadLocationFromTZData("Synthetic/FallsBack", b)
+	if err != nil {
+		return nil
+	}
+	return loc
+}
